@@ -226,12 +226,12 @@ def semi_param_kernel_estimate(ssx, ssy, shrinkage=None, penalty=None, whitening
         kernel = ss.gaussian_kde(ssx_j, bw_method="silverman")
         logpdf_y[j] = kernel.logpdf(y)
 
-        y_u[j] = kernel.integrate_box_1d(np.NINF, y)
+        y_u[j] = kernel.integrate_box_1d(-np.inf, y)
         y_u[j] = min(1, y_u[j])  # fix numerical errors, CDF values cannot exceed 1
 
         if whitening is not None:
             # TODO? Commented out very inefficient for large simulation count
-            # sim_eta[:, j] = [ss.norm.ppf(kernel.integrate_box_1d(np.NINF,
+            # sim_eta[:, j] = [ss.norm.ppf(kernel.integrate_box_1d(-np.inf,
             #                                                      ssx_i))
             #                  for ssx_i in ssx_j]
             sim_eta[:, j] = ss.norm.ppf(ss.rankdata(ssx_j)/(n+1))
